@@ -1,6 +1,7 @@
 import DendroModel.Model.C06
 import DendroModel.Theory.C06Proto
 import DendroModel.Theory.C06Argmax
+import DendroModel.Theory.C06Sort
 import Mathlib.Tactic.Ring
 /-! C06 — property theorems about the `TreeArray` / `SplitDistribution` / SumTrees model of
 `Model/C06.lean` (the definitions the driver `drv_c06` executes).
@@ -1441,6 +1442,67 @@ theorem mem_consensusOrder (sd : SD) (θ : Q) (s : Nat) :
     exact ⟨⟨kc, hkc, rfl⟩, hle⟩
 
 
+/-! ### the sorted candidate order is a function of the multiset of candidates -/
+
+theorem sort_perm_eq {l1 l2 : List (Q × Nat)} (hp : l1.Perm l2) (hpos : ∀ z ∈ l1, 0 < z.1.den)
+    (hinj : ∀ u ∈ l1, ∀ v ∈ l1, u.2 = v.2 → u = v) : l1.foldr insDesc [] = l2.foldr insDesc [] := by
+  apply List.Perm.eq_of_pairwise (le := geP)
+  · intro u v hu hv h1 h2
+    have hu' : u ∈ l1 := (sortDesc_perm l1).mem_iff.1 hu
+    have hv' : v ∈ l1 := hp.mem_iff.2 ((sortDesc_perm l2).mem_iff.1 hv)
+    exact hinj u hu' v hv' (geP_antisymm h1 h2)
+  · exact sortDesc_sorted l1 hpos
+  · exact sortDesc_sorted l2 (fun z hz => hpos z (hp.mem_iff.2 hz))
+  · exact ((sortDesc_perm l1).trans hp).trans (sortDesc_perm l2).symm
+
+theorem nodup_closed : Closed (fun a => (keys a.sd.counts).Nodup) (fun _ => True) where
+  new := by intro r f; simp [TA.new, SD.new, keys]
+  add := by
+    intro a a' t idx ha _ h
+    simp only [addTree] at h
+    split at h
+    · cases h
+    · split at h
+      · cases h
+      · split at h <;> (cases h; simp only [countTree]; rw [foldl_countEntry]; exact nodup_foldl_bump _ _ _ ha)
+  half := by
+    intro a t ha _
+    simp only [addTreeHalf]
+    split
+    · exact ha
+    · simp only [countTree]; rw [foldl_countEntry]; exact nodup_foldl_bump _ _ _ ha
+  upd := by
+    intro a b c ha hb h
+    have hm : ∀ (x : SD), (keys x.counts).Nodup → (keys (x.merge b.sd).counts).Nodup := by
+      intro x hx
+      simp only [SD.merge]; rw [foldl_mergeEntry]; exact nodup_foldl_merge _ _ hx
+    simp only [update] at h
+    split at h
+    · cases h; exact ha
+    · split at h
+      · split at h
+        · cases h
+        · split at h
+          · cases h
+          · split at h
+            · cases h
+            · split at h
+              · cases h
+              · cases h; exact hm _ ha
+      · cases h; exact hm _ ha
+
+
+theorem qsumF_perm {a b : List Frac} (h : a.Perm b) : qsumF a = qsumF b := by
+  induction h with
+  | nil => rfl
+  | cons x _ ih => simp only [qsumF, ih]
+  | swap x y l => simp only [qsumF]; exact add_left_comm _ _ _
+  | trans _ _ ih1 ih2 => exact ih1.trans ih2
+
+theorem isEmpty_of_perm {α : Type} {a b : List α} (h : a.Perm b) : a.isEmpty = b.isEmpty := by
+  have := h.length_eq
+  cases a <;> cases b <;> simp_all
+
 theorem range_flatMap_getElem? {α β : Type} (h : Option α → List β) : ∀ (l : List α),
     (List.range l.length).flatMap (fun i => h l[i]?) = l.flatMap (fun x => h (some x))
   | [] => rfl
@@ -1855,6 +1917,97 @@ theorem mcc_of_obs {a b : TA} (ha : Aligned a) (hb : Aligned b) (h : ObsEq a.sd 
     rw [hpb2]; exact hmaxb k _ hk
   exact ⟨i, j, pa, pb, hi, hj, hpa1, hpb1, ⟨h1, h2⟩, fun hu => hu pb hpb_in_a ⟨h2, h1⟩⟩
 
+/-- **consensus_of_obs** (clause c): the list of splits `consensus_tree(min_freq)` hands to the tree builder — every counted
+split with frequency ≥ `min_freq`, sorted by decreasing `(frequency, mask)` — is, *including its order*, a function of
+the observable: two distributions with the same observable (dictionary keys without repetition, counts with positive
+denominators) produce the same list, in whatever order their trees were counted or merged.  Hence the greedy consensus,
+which is determined by that list, does not depend on partitioning, order or scheduling. -/
+theorem consensus_of_obs {a b : SD} (h : ObsEq a b) (hna : (a.counts.map (·.1)).Nodup) (hnb : (b.counts.map (·.1)).Nodup)
+    (hpa : ∀ kc ∈ a.counts, 0 < kc.2.den) (θ : Q) : consensusOrder a θ = consensusOrder b θ := by
+  have hkeys : (a.counts.map (·.1)).Perm (b.counts.map (·.1)) := by
+    refine (List.perm_ext_iff_of_nodup hna hnb).2 ?_
+    intro k
+    have := (h.2.2.2.2 k).1
+    change k ∈ keys a.counts ↔ k ∈ keys b.counts
+    rw [← hasKey_iff k a.counts, ← hasKey_iff k b.counts, this]
+  have hfun : (fun k => (a.freq k, k)) = (fun k => (b.freq k, k)) := by
+    funext k; rw [freq_of_obs h k]
+  have hc : ((a.counts.map fun kc => (a.freq kc.1, kc.1)).filter fun p => Q.le θ p.1).Perm
+      ((b.counts.map fun kc => (b.freq kc.1, kc.1)).filter fun p => Q.le θ p.1) := by
+    have e1 : (a.counts.map fun kc => (a.freq kc.1, kc.1)) = (a.counts.map (·.1)).map (fun k => (a.freq k, k)) := by
+      simp [List.map_map]
+    have e2 : (b.counts.map fun kc => (b.freq kc.1, kc.1)) = (b.counts.map (·.1)).map (fun k => (b.freq k, k)) := by
+      simp [List.map_map]
+    rw [e1, e2, hfun]
+    exact (hkeys.map _).filter _
+  simp only [consensusOrder]
+  congr 1
+  refine sort_perm_eq hc ?_ ?_
+  · intro z hz
+    obtain ⟨hz1, _⟩ := List.mem_filter.1 hz
+    obtain ⟨kc, _, rfl⟩ := List.mem_map.1 hz1
+    exact freq_pos (sd := a) hpa kc.1
+  · intro u hu v hv huv
+    obtain ⟨hu1, _⟩ := List.mem_filter.1 hu
+    obtain ⟨ku, _, rfl⟩ := List.mem_map.1 hu1
+    obtain ⟨hv1, _⟩ := List.mem_filter.1 hv
+    obtain ⟨kv, _, rfl⟩ := List.mem_map.1 hv1
+    simp only at huv
+    rw [huv]
+
+/-- **consensus_of_obs_reachable**: for arrays reached by *any* two histories (the tree weights of the first with positive
+denominators), the hypotheses of `consensus_of_obs` hold (keys never repeat, counts keep positive denominators — both are
+invariants of every operation): equal observables give the same sorted candidate list. -/
+theorem consensus_of_obs_reachable (ops1 ops2 : List Op) (hw1 : ∀ op ∈ ops1, OpT WPos op)
+    (a b : TA) (ha : a ∈ (run [] ops1).1) (hb : b ∈ (run [] ops2).1) (h : ObsEq a.sd b.sd) (θ : Q) :
+    consensusOrder a.sd θ = consensusOrder b.sd θ := by
+  have t1 : ∀ op ∈ ops1, OpT (fun _ => True) op := by intro op _; cases op <;> simp [OpT]
+  have t2 : ∀ op ∈ ops2, OpT (fun _ => True) op := by intro op _; cases op <;> simp [OpT]
+  exact consensus_of_obs h (run_closed nodup_closed ops1 [] (by simp) t1 a ha) (run_closed nodup_closed ops2 [] (by simp) t2 b hb)
+    (run_closed pos_closed ops1 [] (by simp) hw1 a ha) θ
+
+/-- **history_final_rooting_flags**: after a compatible history every array carries the common settings `fl` (its own and
+its distribution's), its rooting state is `ρ` as soon as it holds a tree, and undefined or `ρ` while it is empty
+(adoption on merging into an empty array included). -/
+theorem history_final_rooting_flags (ρ : Option Bool) (fl : Flags) (ops : List Op) (h : ∀ op ∈ ops, OpOK ρ fl op) :
+    List.Forall₂ (fun a ts => a.flags = fl ∧ a.sd.flags = fl ∧ (ts ≠ [] → a.rooting = ρ) ∧ (a.rooting = none ∨ a.rooting = ρ))
+      (run [] ops).1 (ghostRun ops) := by
+  obtain ⟨h1, _⟩ := run_ghost (ρ := ρ) (fl := fl) ops [] [] List.Forall₂.nil h
+  refine f2_imp ?_ h1
+  intro a ts ra
+  refine ⟨ra.flags, ra.sd.flags, ?_, ?_⟩
+  · intro hne
+    rcases ra.root with hr | ⟨he, _⟩
+    · exact hr
+    · exact absurd he hne
+  · rcases ra.root with hr | ⟨_, hr⟩
+    · exact Or.inr hr
+    · exact Or.inl hr
+
+/-- **summaries_of_obs** (clause c, summaries on the summary tree): for every split, what `summarize_splits_on_tree` reads —
+the collections of edge lengths and of node ages (as multisets), their sizes, and the mean edge length and mean node age
+computed from them (exact sums of un-normalised fractions, hence literally equal) — is a function of the observable. -/
+theorem summaries_of_obs {a b : SD} (h : ObsEq a b) (s : Nat) :
+    (getL s a.lens).Perm (getL s b.lens) ∧ (getL s a.ages).Perm (getL s b.ages) ∧
+    a.summarySizes s = b.summarySizes s ∧ a.meanLen s = b.meanLen s ∧ a.meanAge s = b.meanAge s := by
+  obtain ⟨_, _, pl, pa⟩ := h.2.2.2.2 s
+  have pa' : ((getL s a.ages).filterMap id).Perm ((getL s b.ages).filterMap id) := pa.filterMap id
+  refine ⟨pl, pa, ?_, ?_, ?_⟩
+  · simp only [SD.summarySizes, pl.length_eq, pa'.length_eq]
+  · simp only [SD.meanLen, qsumF_perm pl, pl.length_eq, isEmpty_of_perm pl]
+  · simp only [SD.meanAge, qsumF_perm pa', pa'.length_eq, isEmpty_of_perm pa']
+
+/-- **summaries_of_histories**: two compatible histories leaving the same trees up to order in two arrays (by the ghost
+semantics) leave there, for every split, the same mean edge length, mean node age and summary sizes. -/
+theorem summaries_of_histories (ρ : Option Bool) (fl : Flags) (ops1 ops2 : List Op)
+    (h1 : ∀ op ∈ ops1, OpOK ρ fl op) (h2 : ∀ op ∈ ops2, OpOK ρ fl op) (i j : Nat) (a b : TA) (ta tb : List TRec)
+    (ha : (run [] ops1).1[i]? = some a) (hb : (run [] ops2).1[j]? = some b)
+    (hta : (ghostRun ops1)[i]? = some ta) (htb : (ghostRun ops2)[j]? = some tb) (hp : ta.Perm tb) (s : Nat) :
+    a.sd.meanLen s = b.sd.meanLen s ∧ a.sd.meanAge s = b.sd.meanAge s ∧ a.sd.summarySizes s = b.sd.summarySizes s := by
+  obtain ⟨hobs, _⟩ := histories_agree ρ fl ops1 ops2 h1 h2 i j a b ta tb ha hb hta htb hp
+  obtain ⟨_, _, h3, h4, h5⟩ := summaries_of_obs hobs s
+  exact ⟨h4, h5, h3⟩
+
 /-! ### non-vacuity: the hypotheses are satisfiable and the statements say something on a concrete sample -/
 
 section Examples
@@ -1928,6 +2081,17 @@ example : (∀ op ∈ exSerial, OpT WPos op) ∧ (∀ op ∈ exNested, OpT WPos 
 example : ((run [] exSerial).1[0]?.map mccIndex, (run [] exNested).1[4]?.map mccIndex,
     (run [] exSerial).1[0]?.map (fun a => a.splits[0]?), (run [] exNested).1[4]?.map (fun a => a.splits[0]?)) =
     (some (some 0), some (some 0), some (some (exT1.entries.map (·.split))), some (some (exT1.entries.map (·.split)))) := by decide
+/-- `consensus_of_obs`: on the two example histories the sorted candidate lists at threshold 1/4 coincide (arrays 0 and 4) and
+    are not trivial (six splits; 8, 4, 2, 0 all have frequency 1 and are ordered by mask) -/
+example : ((run [] exSerial).1[0]?.map (fun a => consensusOrder a.sd ⟨1, 4⟩)) = ((run [] exNested).1[4]?.map (fun a => consensusOrder a.sd ⟨1, 4⟩)) ∧
+    ((run [] exSerial).1[0]?.map (fun a => (consensusOrder a.sd ⟨1, 4⟩).length)) = some 6 := by decide
+/-- `history_final_rooting_flags`: in `exNested` array 2 stays empty with undefined rooting, array 0 adopts `some false` -/
+example : ((run [] exNested).1.map (·.rooting)) = [some false, some false, none, some false, some false] := by decide
+/-- `summaries_of_histories` on the example histories: split 6 occurs in the two copies of exT1 with length 1/2, its mean is
+    1/2 in both arrays (as the un-normalised sum 4/4 over 2), split 10 (exT2 only) has mean 1 -/
+example : ((run [] exSerial).1[0]?.map (fun a => ((a.sd.meanLen 6).map (·.render), (a.sd.meanLen 10).map (·.render), a.sd.summarySizes 6)),
+    (run [] exNested).1[4]?.map (fun a => ((a.sd.meanLen 6).map (·.render), (a.sd.meanLen 10).map (·.render), a.sd.summarySizes 6))) =
+    (some (some "1/2", some "1", (2, 0)), some (some "1/2", some "1", (2, 0))) := by decide
 end Examples
 
 end DendroModel.C06
